@@ -18,7 +18,7 @@ RULE = ("(a) pairs of consistently typed feature structures of depth <=2 over fe
         "ambiguity, left recursion; text and object API): contains(w) for all words <=%d compared with membership in "
         "the reference grounding, feature-free grammars also with the plain CFG semantics. "
         "Non-trivial: structures share >=1 path / grammar has a non-empty language; distinct = case hash." % N +
-        ' Later additions: structure-valued agreement features, tied next to independent analyses of one constituent, alternatives on one line, the (n) reference syntax and VAR markers; a second reference grammar built from the case itself judges what the library read; production count up to variable renaming.')
+        ' Later additions: structure-valued agreement features, tied next to independent analyses of one constituent, alternatives on one line, the (n) reference syntax and VAR markers; a second reference grammar built from the case itself judges what the library read; production count up to variable renaming; words that are ambiguous in a feature below productions handing it upwards (one production completed over one span once per value).')
 ASSUMPTIONS = ["feature lists of body symbols are rendered without blanks, as the text parser requires",
                "atom-against-complex conflicts (inconsistent typing) are not generated"]
 TIERS = {
@@ -442,6 +442,41 @@ def shared_struct_fcfg(rng):
     return {"kind": "fcfg", "prods": prods, "via": rng.choice(["text", "api", "api"])}
 
 
+def ambiguous_span_fcfg(rng):
+    """a word that is ambiguous in a feature (Det[f=x] -> a and Det[f=y] -> a) below productions that hand the feature
+    upwards (NP[f=?n] -> Det[f=?n] b, possibly through further layers): the same production is completed over the same
+    span once per value, and the sister (VP[f=x] -> a, VP[f=y] -> b) decides which value is needed"""
+    NP, Det, VP, Mid = rng.sample(["A", "B", "C", "D", "NP", "VP", "Det", "X1", "Y2"], 4)
+    t = rng.choice("ab")
+    feat = rng.choice(["f", "g"])
+    layers = rng.choice([1, 1, 2, 3])
+    tail = [["T", rng.choice("ab")]] if rng.random() < 0.7 else []
+    lead = [["T", rng.choice("ab")]] if rng.random() < 0.2 else []
+    first, second = ["V", NP, {feat: "?n"}], ["V", VP, {feat: "?n"}]
+    prods = [["S", {}, [first, second] if rng.random() < 0.7 else [second, first]]]
+    cur = NP
+    for i in range(layers - 1):
+        nxt = Mid + str(i)
+        prods.append([cur, {feat: "?m"}, [["V", nxt, {feat: "?m"}]] + ([["T", rng.choice("ab")]] if rng.random() < 0.3 else [])])
+        cur = nxt
+    prods.append([cur, {feat: "?n"}, lead + [["V", Det, {feat: "?n"}]] + tail])
+    r = rng.random()
+    if r < 0.6:
+        prods += [[Det, {feat: "x"}, [["T", t]]], [Det, {feat: "y"}, [["T", t]]]]
+    elif r < 0.8:
+        # one reading leaves the feature open
+        prods += [[Det, {feat: rng.choice(ATOMS)}, [["T", t]]], [Det, {}, [["T", t]]], [Det, {feat: rng.choice(ATOMS)}, [["T", t], ["T", t]]]]
+    else:
+        # the ambiguity sits one level lower, below a unit production
+        prods += [[Det, {feat: "?k"}, [["V", "Lex", {feat: "?k"}]]], ["Lex", {feat: "x"}, [["T", t]]], ["Lex", {feat: "y"}, [["T", t]]]]
+    va, vb = rng.choice([("a", "b"), ("b", "a"), ("a", "a")])
+    prods += [[VP, {feat: "x"}, [["T", va]]], [VP, {feat: "y"}, [["T", vb]] + ([["T", vb]] if va == vb else [])]]
+    if rng.random() < 0.3:
+        prods.append(["S", {}, [["V", "S", {}], ["V", VP, {feat: rng.choice(ATOMS)}]]])
+    rng.shuffle(prods)
+    return {"kind": "fcfg", "prods": prods, "via": rng.choice(["text", "text", "api"])}
+
+
 def long_body_fcfg(rng):
     """a body of twelve to fourteen symbols with categories at positions 2-9 AND at positions 10 and later that must
     agree (and a feature-free variant): positions with two digits"""
@@ -687,6 +722,8 @@ def plan(tier, rng, sl, nslices, stats):
         if i % 10 == 4:
             yield shared_struct_fcfg(rng)
             continue
+        if i % 10 == 7:
+            c = ambiguous_span_fcfg(rng)
         if i % 100 == 57:
             yield long_body_fcfg(rng)
             continue
